@@ -44,7 +44,7 @@ STYLESHEET_CORPUS = [
     '@kf', '@m', '@f', '@i', '@ff', 'gt', 'gtc', 'gtcr', 'gg10', 'jc', 'jcc', 'ai', 'aic', 'as', 'ac',
     'bdrs4', 'bdw1-2-3-4', 'm10-20-30-40', 'p1.5e-2r', 'ol', 'oln', 'us', 'usn', 'cnt', 'cntoq', 'q', 'coi', 'cor',
     'foo', 'foo-bar', 'foo10', 'xyz', 'm$10', 'p${1:10}', 'c#', '#f', '10', 'm10p20', 'mten', 'trf:r', 'p:10',
-    'kmar', 'klh', 'm-a', 'pa', 'm10e20', 'ov-h', 'pos-a', 'd-n', 'fl-r', 'scale(2)', 'trf-scale(1.5)', 'bgc-rgb(0,0,0)',
+    'kmar', 'klh', 'bg:ov', 'bd-q', 'm-al', 'bgmul', 'm-a', 'pa', 'm10e20', 'ov-h', 'pos-a', 'd-n', 'fl-r', 'scale(2)', 'trf-scale(1.5)', 'bgc-rgb(0,0,0)',
     'fz12', 'fz1e', 'fs-i', 'fst', 'lts.1', 'wos2', 'tsh', 'to', 'colm2', 'colmg10', 'wido2', 'orp3',
 ]
 
@@ -67,7 +67,13 @@ STYLESHEET_USER_SNIPPETS = {
     'fna': 'transform:scale(2)|rotate(10)',
     'cola': 'color:#f00|#0f0',
     'stra': "content:'x'|\"y\"",
+    # longhands of stock shorthands with keywords of their own: a snippet object that
+    # outlives the call would keep them attached to `background` / `border` / `margin`
+    'bgbm': 'background-blend-mode:multiply|screen|overlay',
+    'bdst': 'border-stroke:hairline|quirky',
+    'mfoo': 'margin-foo:alpha|beta',
 }
+DEPENDENT_PROBES = ['bg:ov', 'bg-mul', 'bgmul', 'bd-q', 'bd:hair', 'm-al', 'm:beta', 'bg-scr+bd-q', 'bgov']
 STYLESHEET_POISON_SNIPPETS = {
     'pxa': "margin:'abc",
     'pxb': 'margin:10 (',
